@@ -303,7 +303,10 @@ def _execute_loads(case, chooser, ex, gb, dmg, only, V, seen, stats, val, data, 
                 viol = v("load-wrong-exception", f"{outcome[1]};{outcome[2]}",
                          f"{api}({_r(d)}) raised {outcome[1]} in {outcome[2]} (damage kind {kind} of dumps({case['value_repr'][:200]}))")
             elif outcome[0] == "memory":
-                viol = v("alloc-by-length-field", outcome[1], f"{api}({_r(d)}) raised MemoryError in {outcome[1]}")
+                # with a damaged NEWLIST length in the string the huge list is what exhausts memory, wherever the
+                # MemoryError happens to surface afterwards (a large string payload read next, under memory pressure)
+                site = "load_newlist" if _has_length_bomb(d) else outcome[1]
+                viol = v("alloc-by-length-field", site, f"{api}({_r(d)}) raised MemoryError in {outcome[1]}")
             elif outcome[0] == "value":
                 sup = only_supported(outcome[1], 16 * len(d) + 1000)
                 if sup is None:
